@@ -122,7 +122,7 @@ func BaseConfig(engine, openapi string, globs []string) map[string]any {
 				"license": map[string]any{"name": "Apache 2.0", "url": "http://www.apache.org/licenses/LICENSE-2.0.html"},
 				"version": "1.0.0",
 			},
-			"baseUrl":             "https://api.example.com",
+			"baseUrl":             "https://api.example.com/v1/",
 			"securitySchemes":     []any{APIKeyScheme("s1"), APIKeyScheme("s2"), OAuthScheme("s9")},
 			"specGeneratorConfig": map[string]any{"outputPath": "./dist/openapi.json"},
 		},
